@@ -20,6 +20,9 @@ I1 = e1.Sch(S("int", call(1)))
 SA = e1.Sch(S("str", call("a")))
 
 
+FRESH_NAN = e1.codec.register("c11_fresh_nan", type("FreshNan", (), {"__repr__": lambda self: "<fresh nan>"})())
+
+
 def menus(tier):
     T = tier == "thorough"
     ns = (0, 1, 2, 3) + ((33,) if T else ())
@@ -31,8 +34,9 @@ def menus(tier):
         "int": {"refs": {"min": [(0,), (7,), (-1,), (8,)], "max": [(0,), (7,), (-1,), (8,)]},
                 "values": [None, 0, 7] + ([True] if T else [])},
         # 1.49 / 1.51 differ from the value 1.5 only beyond precision 1; 1.46 rounds to 1.5
-        "float": {"refs": {"min": [(0.15,), (1.5,), (2.5,), (1.51,), (1.49,)],
-                           "max": [(0.15,), (1.5,), (2.5,), (1.49,), (1.51,)],
+        # FRESH_NAN becomes a new float('nan') object every time it is applied
+        "float": {"refs": {"min": [(0.15,), (1.5,), (2.5,), (1.51,), (1.49,), (FRESH_NAN,)],
+                           "max": [(0.15,), (1.5,), (2.5,), (1.49,), (1.51,), (FRESH_NAN,)],
                            "precision": [(1,), (2,)] + ([(15,), (0,)] if T else [])},
                   "values": [None, 1.5, 0.2, 1.46]},
         # "len2" is a SECOND application of len (another form): re-declaring a length is rejected
@@ -42,7 +46,7 @@ def menus(tier):
                          "contains": [("",), ("a",), ("ab",), ("c",)],
                          "regex": [("a",), ("[ab]+",), ("^a.$",), ("a{2}",), ("*",),
                                    ("a{99999999999999999999}",)]},
-                "values": [None, "", "a", "ab", "abc"]},
+                "values": [None, "", "a", "ab", "abc", "{id}"]},
         # a user subclass of StrSchema whose len() refuses lengths above 2
         "capped_str": {"refs": {"len": [(1,), (3,), (1, E), (3, E), (E, 3), (1, 3)],
                                 "alphabet": [("ab",)], "contains": [("a",), ("",)],
@@ -78,6 +82,7 @@ def outcome(kind, value, order, wpos=None):
         for j, (method, args) in enumerate(order):
             if j == wpos:
                 terms.warm(s)       # the partial declaration is used (==, repr, ...) before refining
+            args = tuple(float("nan") if a is FRESH_NAN else a for a in args)
             s = getattr(s, "len" if method == "len2" else method)(*args)
     except DeclarationError:
         return "rejected", None
